@@ -447,6 +447,8 @@ def run(tier, seed):
         accepted_pairs = []
         for it, r in zip(items, res):
             if r == parallel.HANG:
+                r = c12.retry_inproc(run_pair, it, seed, worker_init)
+            if r == parallel.HANG:
                 hangs += 1
                 viols.append({"sig": {"part": "hang", "tp": it["tp"], "tc": it["tc"]}, "input": {"kind": "pair", "item": it, "assign": None, "seed": seed}, "what": "pair hung the worker"})
                 continue
@@ -478,6 +480,8 @@ def run(tier, seed):
         xprog = xevals = xvalid = 0
         for it, r in zip(xitems, res):
             if r == parallel.HANG:
+                r = c12.retry_inproc(run_extra, it, seed, worker_init)
+            if r == parallel.HANG:
                 hangs += 1
                 continue
             xo[r["outcome"]] = xo.get(r["outcome"], 0) + 1
@@ -507,6 +511,8 @@ def run(tier, seed):
         csamples = []
         for it, r in zip(citems, res):
             if r == parallel.HANG:
+                r = c12.retry_inproc(run_chain, it, seed, worker_init)
+            if r == parallel.HANG:
                 hangs += 1
                 continue
             if r["class_error"]:
@@ -525,6 +531,8 @@ def run(tier, seed):
         i_tot = {"evals": 0, "valid": 0, "rejected": 0, "nan_skipped": 0, "distinct": 0, "nviol": 0, "rej_kinds": {}}
         isamples = []
         for it, r in zip(inst_items, res):
+            if r == parallel.HANG:
+                r = c12.retry_inproc(run_installed, it, seed, worker_init, secs=900)
             if r == parallel.HANG:
                 hangs += 1
                 continue
